@@ -40,9 +40,18 @@ def rand_head(rng, tag, big):
             r.version = "1.1"          # (the first Connection field decides persistence; keep the pipeline alive)
         else:
             r.conn = rng.choice(["keep-alive", "Keep-Alive"])
+    colon_values = rng.chance(1, 5)
+    if colon_values:
+        # values that themselves contain colon + blank, sent WITHOUT optional whitespace behind the field's own colon
+        for nm, v in rng.choice([[("X-Time", "12:30: 45")], [("Subject", "Re: hello: world"), ("X-Url", "http://a/b: c")]]):
+            r.headers.append((nm, v))
     for i in range(len(r.all_headers())):
         if rng.chance(1, 2):
             r.ows[i] = (rng.choice(OWS), rng.choice(OWS))
+    if colon_values:
+        for i, (nm, v) in enumerate(r.all_headers()):
+            if ": " in v:
+                r.ows[i] = ("", "")
     return r
 
 
